@@ -314,12 +314,14 @@ def run(prop, tier):
                 V.violation("C16 %s raised %s" % (op, type(ex).__name__), dict(model=name, history=[[op, arg]], error=str(ex)[:300]))
     # ================= databook year columns and sparse series (DataYears.tla)
     P = at.demo("udt", do_run=False)
-    D0 = P.data
+    D0 = sc.dcp(P.data)
+    D0.add_transfer("mig", "Migration")  # (a transfer table, so that adding a population has two ends to extend)
+    base_pops = list(D0.pops.keys())
     base_years = [float(y) for y in D0.tvec]
     extra = [base_years[0] - 1.0, base_years[-1] + 1.0, base_years[-1] + 2.0]
     tkey = list(D0.tdve.keys())[0]
     val_at = lambda y: 1000.0 + (y - base_years[0]) * 12.5 + 0.123456789
-    cfg = "SPECIFICATION Spec\nCONSTANTS\n Years = {%s}\n Cols0 = {}\n Data0 = {}\n Forms = {\"array\", \"list\"}\n MaxLen = %d\nINVARIANT Representable\nCHECK_DEADLOCK FALSE\n" % (",".join(str(int(y)) for y in extra), 4 if thorough else 3)
+    cfg = "SPECIFICATION Spec\nCONSTANTS\n Years = {%s}\n Cols0 = {}\n Data0 = {}\n Forms = {\"array\", \"list\"}\n NewPops = {\"cc\"}\n MaxLen = %d\nINVARIANT Representable\nCHECK_DEADLOCK FALSE\n" % (",".join(str(int(y)) for y in extra), 4 if thorough else 3)
     r, hists = C.enumerate_cases(["DataYears"], "DataYears", cfg, timeout=1200)
     cov["states"] += r.distinct
     cov["transitions"] += r.generated
@@ -344,9 +346,17 @@ def run(prop, tier):
                     ts_.insert(float(list(arg)[0]), val_at(float(list(arg)[0])))
                 elif op == "remove_value":
                     ts_.remove(float(list(arg)[0]))
+                elif op == "add_pop":
+                    D.add_pop(list(arg)[0], "Pop " + list(arg)[0])
+                elif op == "remove_pop":
+                    D.remove_pop(list(arg)[0])
                 elif op == "roundtrip":
                     D = at.ProjectData.from_spreadsheet(D.to_spreadsheet(), P.framework)
             ts_ = D.tdve[tkey].ts[0]
+            want_pops = base_pops + sorted(h["content"]["pops"])
+            records.append(dict(id=rid, kind="same", a=dg(dict(pops=want_pops, ends=[[want_pops, want_pops] for _ in D.transfers])), b=dg(dict(pops=list(D.pops.keys()), ends=[[list(t_.from_pops), list(t_.to_pops)] for t_ in D.transfers]))))
+            index[rid] = dict(label=lab_, what="populations of the databook and at either end of its transfers (as lists) after the history", before=str(want_pops), after=str([[list(t_.from_pops), list(t_.to_pops)] for t_ in D.transfers])[:200])
+            rid += 1
             want = h["content"]
             got_cols = sorted({str(int(y)) for tab in D.tables() for y in tab.tvec if float(y) not in base_years})
             records.append(dict(id=rid, kind="content", want=sorted(str(int(y)) for y in want["cols"]), got=got_cols))
